@@ -316,3 +316,165 @@ func runHarass(a *args, res *result, unit *int64, stuckCh chan string) {
 		}
 	}
 }
+
+// traverseVsClear: three parties. A Delete (or an overwrite) of key X is parked at
+// each of its steps - also in the middle of its critical section, holding X's
+// bucket. A Range is started and parked right after it has picked up the table. Clear
+// runs to completion (it needs no bucket lock) and replaces the table. The Range is
+// resumed: it walks the retired table, where it must still take X's bucket lock and
+// therefore waits for the parked writer (which is then resumed), or finds the bucket
+// untouched. Whatever it visits must be whole: a key with a value stored under it,
+// each key at most once, no panic.
+func traverseVsClear(res *result, kind string, writer string, stuckCh chan string) {
+	const X = 7
+	const nkeys = 40
+	for N := int64(1); N < 60; N++ {
+		sp := mapSpec{Flavor: kind, Hint: noHint, NKeys: 256}
+		if i := indexByte(kind, '/'); i >= 0 {
+			sp.Flavor, sp.Hasher = kind[:i], kind[i+1:]
+		}
+		m := newMap(sp)
+		for k := 0; k < nkeys; k++ {
+			m.Store(k, nextVal(k))
+		}
+		logCase("traverse-vs-clear %s writer=%s N=%d", kind, writer, N)
+		res.Evaluations++
+		vshim.SetTokenMode(true)
+		vshim.ResetGStep()
+		vshim.SetStepBudget(0)
+		vshim.SetMode(vshim.MGlobal | vshim.MPoll | vshim.MCount)
+		wdone := make(chan struct{})
+		vshim.ArmPark(N)
+		go func() {
+			if writer == "delete" {
+				m.Delete(X)
+			} else {
+				m.Store(X, nextVal(X))
+			}
+			close(wdone)
+		}()
+		var wtok *vshim.ParkToken
+		select {
+		case wtok = <-vshim.ParkedTokens():
+		case <-wdone:
+		}
+		vshim.ArmPark(0)
+		if wtok == nil {
+			vshim.SetMode(0)
+			return // the writer finished before step N: enumeration complete
+		}
+		// the traversal: parked after its first step (it has read the table pointer)
+		type visit struct {
+			k int
+			v any
+		}
+		var visits []visit
+		panicked := ""
+		rdone := make(chan struct{})
+		vshim.ArmPark(vshim.GStep() + 2)
+		go func() {
+			defer close(rdone)
+			defer func() {
+				if p := recover(); p != nil {
+					panicked = fmt.Sprint(p)
+				}
+			}()
+			m.Range(func(k int, v any) bool {
+				visits = append(visits, visit{k, v})
+				return true
+			})
+		}()
+		var rtok *vshim.ParkToken
+		rFinished := false
+		select {
+		case rtok = <-vshim.ParkedTokens():
+		case <-rdone:
+			rFinished = true
+		}
+		vshim.ArmPark(0)
+		stuck := ""
+		// Clear needs no bucket lock: it completes although the writer is parked
+		cdone := make(chan struct{})
+		vshim.ArmSpinNotify()
+		vshim.SetStepBudget(1 << 22)
+		go func() { m.Clear(); close(cdone) }()
+		clearWaits := false
+		select {
+		case <-cdone:
+		case <-vshim.SpinNotified():
+			clearWaits = true
+		case stuck = <-stuckCh:
+		}
+		vshim.DisarmSpinNotify()
+		// resume the traversal; if it has to wait for the writer's bucket, resume the writer
+		if rtok != nil {
+			vshim.ArmSpinNotify()
+			rtok.Resume()
+			select {
+			case <-rdone:
+				rFinished = true
+			case <-vshim.SpinNotified():
+			case stuck = <-stuckCh:
+			}
+			vshim.DisarmSpinNotify()
+		}
+		wtok.Resume()
+		for stuck == "" && !(rFinished && wdone == nil && cdone == nil) {
+			rd := rdone
+			if rFinished {
+				rd = nil
+			}
+			select {
+			case <-rd:
+				rFinished = true
+			case <-wdone:
+				wdone = nil
+			case <-cdone:
+				cdone = nil
+			case late := <-vshim.ParkedTokens():
+				late.Resume()
+			case stuck = <-stuckCh:
+			}
+			if cdone != nil {
+				select {
+				case <-cdone:
+					cdone = nil
+				default:
+				}
+			}
+		}
+		vshim.SetStepBudget(0)
+		vshim.SetMode(0)
+		_ = clearWaits
+		res.count("traverse_vs_clear_scenarios", 1)
+		fp := newFP()
+		fp.addStr("traverse-vs-clear" + kind + writer)
+		fp.add(uint64(N))
+		res.nontrivial(fp.sum())
+		bad := func(sig, msg string) {
+			res.violate(violation{Class: "harass", Sig: sig, Msg: fmt.Sprintf("%s, %s(k%d) parked at its step %d, Range started, Clear completed, Range resumed: %s", kind, writer, X, N, msg),
+				Case: map[string]any{"kind": kind, "writer": writer, "N": N}})
+		}
+		if stuck != "" {
+			bad("a call does not return when a writer was suspended while a traversal and a Clear overlap it", stuck)
+			return
+		}
+		if panicked != "" {
+			bad("Range panics when the table is cleared while a writer is inside its bucket", panicked)
+			return
+		}
+		seen := map[int]bool{}
+		for _, vv := range visits {
+			if seen[vv.k] {
+				bad("Range visits a key twice in one traversal", fmt.Sprintf("k%d", vv.k))
+				return
+			}
+			seen[vv.k] = true
+			x, isVal := vv.v.(val)
+			if vv.k < 0 || !isVal || !x.ok() || int(x.K) != vv.k {
+				bad("Range visits a key with a value that was not stored under it", fmt.Sprintf("(k%d, %s)", vv.k, fmtVal(vv.v)))
+				return
+			}
+		}
+	}
+}
